@@ -98,7 +98,15 @@ class DagWalker(Walker):
         if expression in self.memoization:
             return self.memoization[expression]
 
-        res = self.iter_walk(expression, **kwargs)
+        try:
+            res = self.iter_walk(expression, **kwargs)
+        except BaseException:
+            # A walk that fails must not leave its pending work (and, for
+            # one-time caches, its partial results) to the next call.
+            self.stack.clear()
+            if self.invalidate_memoization:
+                self.memoization.clear()
+            raise
 
         if self.invalidate_memoization:
             self.memoization.clear()
